@@ -1,7 +1,9 @@
 /-
   Fca.Model.MinGenMV — `MVContext.get_minimal_generators` (`fcapy/mvcontext/mvcontext.py:389-495`)
-  restricted to interval columns (`IntervalPS`), `use_indexes=True`, `ps_to_iterate=None`,
-  `projection_to_start=1`, together with the `IntervalPS` methods it calls
+  restricted to interval columns (`IntervalPS`), `use_indexes=True`, `projection_to_start=1`
+  (`ps_to_iterate` is a parameter: `getMinimalGeneratorsPs`; the branch without numpy, which wraps the base
+  objects into a `frozenset`, is the same routine run on an iteration order of that set: `IsFrozensetOrder`),
+  together with the `IntervalPS` methods it calls
   (`extension_i`, `description_to_generators`, `generators_to_description`) and `MVContext.extension_i`.
 
   Numbers: interval ends are Python floats; the model uses integers extended by ±inf (`EInt`), the
@@ -195,33 +197,49 @@ def sizeLoop (cols : List Col) (n : Nat) (baseGen : List PGen) (bo : List Nat) (
         if st'.minGens.length > 0 then .ok st'
         else sizeLoop cols n baseGen bo extTrue sizes gens' st'
 
-/-- one pass of the body of the `while` loop for a given `max_projection_num` -/
-def whileBody (cols : List Col) (n : Nat) (intent : List Descr) (baseGen : List PGen) (bo : List Nat)
-    (extTrue : List Nat) (maxProj : Nat) (minGens : List DescrD) : Except PyErr St :=
-  let gens : List PGen := (List.range intent.length).flatMap fun ps =>
+/-- one pass of the body of the `while` loop for a given `max_projection_num`;
+    `psIter` = `ps_to_iterate` (a list of pattern-structure indexes, in the caller's order, repetitions kept):
+    `generators_to_iterate = [(ps_i, gen) for ps_i in ps_to_iterate for gen in get_generators(ps_i, ...)]` -/
+def whileBody (cols : List Col) (n : Nat) (intent : List Descr) (psIter : List Nat) (baseGen : List PGen)
+    (bo : List Nat) (extTrue : List Nat) (maxProj : Nat) (minGens : List DescrD) : Except PyErr St :=
+  let gens : List PGen := psIter.flatMap fun ps =>
     (getGenerators (intent.getD ps .none) maxProj).map fun g => (ps, g)
   sizeLoop cols n baseGen bo extTrue (List.range' 1 (gens.length - 1)) gens ⟨[], minGens⟩
 
 /-- the `while len(min_gens) == 0` loop; `fuel` bounds the number of iterations -/
-def whileLoop (cols : List Col) (n : Nat) (intent : List Descr) (baseGen : List PGen) (bo : List Nat)
-    (extTrue : List Nat) : Nat → Nat → List DescrD → Except PyErr (List DescrD)
+def whileLoop (cols : List Col) (n : Nat) (intent : List Descr) (psIter : List Nat) (baseGen : List PGen)
+    (bo : List Nat) (extTrue : List Nat) : Nat → Nat → List DescrD → Except PyErr (List DescrD)
   | fuel, maxProj, minGens =>
     if minGens.length ≠ 0 then .ok minGens
     else
       match fuel with
       | 0 => .error .OutOfFuel
       | fuel' + 1 =>
-        match whileBody cols n intent baseGen bo extTrue maxProj minGens with
+        match whileBody cols n intent psIter baseGen bo extTrue maxProj minGens with
         | .error e => .error e
-        | .ok st => whileLoop cols n intent baseGen bo extTrue fuel' (maxProj + 1) st.minGens
+        | .ok st => whileLoop cols n intent psIter baseGen bo extTrue fuel' (maxProj + 1) st.minGens
 
-/-- `MVContext.get_minimal_generators(intent, base_generator, base_objects, use_indexes=True)`:
+/-- `MVContext.get_minimal_generators(intent, base_generator, base_objects, use_indexes=True, ps_to_iterate=...)`:
     `intent` lists the description of every pattern structure (`intent[ps_i]`), `baseGen` the items of
-    the base-generator dict, `baseObjs = none` is all objects. -/
+    the base-generator dict, `baseObjs = none` is all objects, `psIter = none` is
+    `range(len(self._pattern_structures))`.  A pattern-structure index outside the intent raises `KeyError`
+    (`intent_i[ps_i]`) in the first pass of the `while` loop. -/
+def getMinimalGeneratorsPs (cols : List Col) (n : Nat) (intent : List Descr) (baseGen : List PGen)
+    (baseObjs : Option (List Nat)) (psIter : Option (List Nat)) (fuel : Nat) : Except PyErr (List DescrD) :=
+  let bo := baseObjs.getD (List.range n)
+  let ps := psIter.getD (List.range intent.length)
+  let extTrue := extensionI cols n ((List.range intent.length).zip intent) Option.none
+  if ps.any (fun j => decide (intent.length ≤ j)) then .error .KeyError
+  else whileLoop cols n intent ps baseGen bo extTrue fuel 1 []
+
+/-- the routine with `ps_to_iterate=None` -/
 def getMinimalGenerators (cols : List Col) (n : Nat) (intent : List Descr) (baseGen : List PGen)
     (baseObjs : Option (List Nat)) (fuel : Nat) : Except PyErr (List DescrD) :=
-  let bo := baseObjs.getD (List.range n)
-  let extTrue := extensionI cols n ((List.range intent.length).zip intent) Option.none
-  whileLoop cols n intent baseGen bo extTrue fuel 1 []
+  getMinimalGeneratorsPs cols n intent baseGen baseObjs Option.none fuel
+
+/-- the branch `not LIB_INSTALLED['numpy']` wraps the base objects into a `frozenset` before the search:
+    repetitions disappear and the iteration order is the (unspecified) order of that set.  `ord` is an
+    admissible iteration order of `frozenset(bo)`. -/
+def IsFrozensetOrder (bo ord : List Nat) : Prop := ord.Nodup ∧ ∀ g, g ∈ ord ↔ g ∈ bo
 
 end Fca.MGMV
